@@ -2269,6 +2269,12 @@ static ld_t det_tolerance(fact_t const *f, qref_t const *R)
  * the c = 1 bound 0.57 for a sweep, 0.82 for a chain (llt); every recorded difference to the compact-storage result is 0.
  */
 enum { FM_EXTRACTED, FM_BIG, FM_NAN, FM_N };
+/* Only the EXTRACTED matrices (and the user-built factors further down) are what the header documents as the argument of the sweeps ("the lower
+ * triangular matrix L, stored in row-major order"); the compact storage with the rest poisoned is a stricter reading - "the sweep does not even
+ * look at the other triangle" - which the pinned code satisfies but the header does not promise (an implementation may multiply by the zeros of a
+ * triangular matrix).  Results on the poisoned forms are therefore evaluated and RECORDED ("...(not judged)", the *-diff maxima), never flagged;
+ * a write outside the right-hand side is flagged in every form. */
+static int fm_judged = 1;
 
 static double *fm_block(size_t cnt)
 {
@@ -2378,7 +2384,8 @@ static int fm_sweep(fact_t const *f, int api, int upper, double const *M, double
     double const ratio = tri_ratio(kind, n, ref, rhs, sol, &wrow);
     vf_count_dyn(clause, 1);
     mx(fam_name[f->fam], "-forms-sweep-residual-ratio", ratio);
-    if (!(ratio <= CSAFE))
+    if (!(ratio <= CSAFE) && !fm_judged) { vf_count_dyn("forms-poisoned-storage-outside-bound(not judged)", 1); }
+    else if (!(ratio <= CSAFE))
     {
         snprintf(cl, sizeof(cl), "%s/solution-residual-outside-bound", label);
         viol2(rn, cl, "%s n=%u class=%s, argument form %s (documented: the %s triangular matrix): row %u of rhs - T sol is %.4g times the gamma_{n+1}|T||sol| bound (c=%g allowed); rhs[%u]=%.17g sol[%u]=%.17g",
@@ -2396,7 +2403,8 @@ static void fm_chain(fact_t const *f, char const *rn, char const *label, char co
     double const ratio = solve_ratio(f, b, x, f->fam == FAM_PLU ? 3 * n : 3 * n + 1, &wrow, &wres, &wbound);
     vf_count_dyn(clause, 1);
     mx(fam_name[f->fam], "-forms-chain-residual-ratio", ratio);
-    if (!(ratio <= CSAFE))
+    if (!(ratio <= CSAFE) && !fm_judged) { vf_count_dyn("forms-poisoned-storage-outside-bound(not judged)", 1); }
+    else if (!(ratio <= CSAFE))
     {
         snprintf(cl, sizeof(cl), "%s/lower-upper-chain-residual-outside-bound", label);
         viol2(rn, cl, "%s n=%u class=%s: lower then upper sweep on argument form %s: row %u of b - A x = %.6e, bound c*gamma_3n*(W|x|) = %.6e (ratio to c=1 bound %.4g)", rn, n,
@@ -2413,6 +2421,7 @@ static void fm_record(char const *same, char const *differs, char const *maxname
 
 static void check_forms(fact_t *f, vf_rng *r, int rhs_kind)
 {
+    fm_judged = 1;
     unsigned const n = f->n;
     int const fam = f->fam;
     char const *fn = fam_name[fam];
@@ -2510,6 +2519,7 @@ static void check_forms(fact_t *f, vf_rng *r, int rhs_kind)
         char ll[64], lu[64], rn[40];
         double *L = fm_matrix(f, 0, form, ll, sizeof(ll));
         double *U = fam == FAM_PLU ? fm_matrix(f, 1, form, lu, sizeof(lu)) : L;
+        fm_judged = form == FM_EXTRACTED; /* see the note at FM_EXTRACTED */
         double *Lref = xd_copy(L, (size_t)n * n), *Uref = fam == FAM_PLU ? xd_copy(U, (size_t)n * n) : NULL;
         if (fam != FAM_PLU) { snprintf(lu, sizeof(lu), "%s", ll); }
         /* the oracle reads the triangle that IS the argument: from the extracted matrix itself, resp. from the storage */
